@@ -3,6 +3,7 @@
 package core
 
 import (
+	"bytes"
 	"bufio"
 	"crypto/sha256"
 	"encoding/hex"
@@ -381,7 +382,7 @@ func WorkerMain(args []string) {
 	w := bufio.NewWriter(os.Stdout)
 	w.WriteString("RESULT ")
 	w.Write(b)
-	w.WriteString("\n")
+	w.WriteString("\nDONE\n")
 	w.Flush()
 }
 
@@ -576,4 +577,159 @@ func Scratch(tag string) string {
 		panic(err)
 	}
 	return d
+}
+
+// ---------------------------------------------------------------------------------------
+// crash tolerant sharding (C08): a worker may die (stack overflow, out of memory, fatal error) or hang on
+// a case. Workers announce every case before running it; the parent attributes a death or a stall to the
+// announced case, reports it through onCrash and restarts the worker after that case.
+
+// Inflight announces the case about to run (worker side). seq is the worker's deterministic case number.
+func Inflight(seq int, id string) {
+	fmt.Fprintf(os.Stdout, "INFLIGHT %d %s\n", seq, id)
+}
+
+// ResumeAfter is the case number after which a restarted worker continues (-1: from the start).
+func ResumeAfter() int {
+	if s := os.Getenv("VERIF_RESUME_AFTER"); s != "" {
+		if n, err := strconv.Atoi(s); err == nil {
+			return n
+		}
+	}
+	return -1
+}
+
+// Snapshot prints the cumulative result so far (worker side); the parent keeps the latest one.
+func (r *R) Snapshot() {
+	r.mu.Lock()
+	b, _ := json.Marshal(r)
+	r.mu.Unlock()
+	fmt.Fprintf(os.Stdout, "RESULT %s\n", b)
+}
+
+// ShardedResilient runs n workers like Sharded but survives worker deaths and stalls.
+func ShardedResilient(r *R, n int, stallSecs int, onCrash func(caseID, kind, detail string)) {
+	if r.Check.RunShard == nil {
+		r.HarnessError("no RunShard for %s", r.ID)
+		return
+	}
+	var wg sync.WaitGroup
+	var mu sync.Mutex
+	for i := 0; i < n; i++ {
+		wg.Add(1)
+		go func(i int) {
+			defer wg.Done()
+			resume := -1
+			for attempt := 0; attempt < 200; attempt++ {
+				left := time.Until(r.Deadline)
+				if left < time.Second {
+					return
+				}
+				cmd := exec.Command(os.Args[0], "worker", r.ID, r.Tier, strconv.Itoa(i), strconv.Itoa(n))
+				cmd.Env = append(os.Environ(), "VERIF_DEADLINE_S="+strconv.Itoa(int(left.Seconds())), "VERIF_RESUME_AFTER="+strconv.Itoa(resume))
+				var stderr bytes.Buffer
+				cmd.Stderr = &stderr
+				out, err := cmd.StdoutPipe()
+				if err != nil || cmd.Start() != nil {
+					r.HarnessError("worker %d: cannot start: %v", i, err)
+					return
+				}
+				var last, inflightID string
+				inflightSeq := -1
+				done := false
+				progress := make(chan struct{}, 1)
+				finished := make(chan struct{})
+				stalled := false
+				go func() {
+					t := time.NewTimer(time.Duration(stallSecs) * time.Second)
+					for {
+						select {
+						case <-progress:
+							if !t.Stop() {
+								select {
+								case <-t.C:
+								default:
+								}
+							}
+							t.Reset(time.Duration(stallSecs) * time.Second)
+						case <-t.C:
+							stalled = true
+							cmd.Process.Kill()
+							return
+						case <-finished:
+							return
+						}
+					}
+				}()
+				sc := bufio.NewScanner(out)
+				sc.Buffer(make([]byte, 1<<20), 1<<30)
+				for sc.Scan() {
+					line := sc.Text()
+					switch {
+					case strings.HasPrefix(line, "INFLIGHT "):
+						f := strings.SplitN(line[9:], " ", 2)
+						inflightSeq, _ = strconv.Atoi(f[0])
+						if len(f) > 1 {
+							inflightID = f[1]
+						}
+						select {
+						case progress <- struct{}{}:
+						default:
+						}
+					case strings.HasPrefix(line, "RESULT "):
+						last = line[7:]
+					case line == "DONE":
+						done = true
+					}
+				}
+				cmd.Wait()
+				close(finished)
+				if last != "" {
+					wr := &R{}
+					if json.Unmarshal([]byte(last), wr) == nil {
+						mu.Lock()
+						r.Merge(wr)
+						mu.Unlock()
+					}
+				}
+				if done {
+					return
+				}
+				if inflightSeq < 0 {
+					r.HarnessError("worker %d/%d died before its first case: %s", i, n, tailStr(stderr.String(), 600))
+					return
+				}
+				kind := "process died"
+				if stalled {
+					kind = fmt.Sprintf("no progress for %d s (killed)", stallSecs)
+				}
+				mu.Lock()
+				onCrash(inflightID, kind, tailStr(firstFatal(stderr.String()), 1200))
+				mu.Unlock()
+				resume = inflightSeq
+			}
+		}(i)
+	}
+	wg.Wait()
+}
+
+func tailStr(s string, n int) string {
+	if len(s) > n {
+		return s[len(s)-n:]
+	}
+	return s
+}
+
+// firstFatal returns stderr from the first runtime fatal/panic marker on (the interesting part of a crash dump).
+func firstFatal(s string) string {
+	for _, m := range []string{"fatal error:", "runtime: goroutine stack exceeds", "panic:"} {
+		if i := strings.Index(s, m); i >= 0 {
+			e := i + 1500
+			if e > len(s) {
+				e = len(s)
+			}
+			return s[i:e]
+		}
+	}
+	return s
 }
